@@ -49,14 +49,19 @@ class Channel {
     }
 
     Channel& operator << (const T &value) {
-        //! 每放入一个数据都要唤醒一个等待者。如果只在"由空变为非空"时才唤醒，
-        //! 连续放入多个数据时，排在后面的等待者就永远不会被唤醒
-        if (!token_.empty()) {
-            auto t = token_.front();
-            token_.pop();
-            sch_.resume(t);
-        }
         queue_.push(value);
+
+        //! 每放入一个数据都要唤醒等待者。如果只在"由空变为非空"时才唤醒，
+        //! 连续放入多个数据时，排在后面的等待者就永远不会被唤醒。
+        //!
+        //! 为什么要唤醒所有的等待者，而不是只唤醒最早的那个？
+        //! 因为 token_ 中的协程可能已被 cancel() 了（甚至已经结束了），它不会来取数据，
+        //! 也没有机会把这次唤醒转交给后面的等待者，后面的等待者就会守着非空的通道一直睡下去。
+        //! 被唤醒的协程按等待的先后顺序依次执行，没有取到数据的会重新排队。
+        while (!token_.empty()) {
+            sch_.resume(token_.front());
+            token_.pop();
+        }
         return *this;
     }
 
